@@ -3,7 +3,7 @@ import itertools
 import time
 import numpy as real_np
 import z3
-from ..values import SF, MIN_INT, is_sym, conc_bool, b_and, b_or, b_not, ite, same, Unsupported
+from ..values import SF, MIN_INT, is_sym, conc_bool, b_and, b_or, b_not, ite, same, Unsupported, OutsideModel
 from ..symarray import A
 from ..models import FakeChunked, Schedule
 from ..runtime import fresh_runtime, run_paths, current
@@ -119,10 +119,21 @@ def run_strategy(E, case):
     inp = Inputs()
     d = R.build(case, inp)
     rt = fresh_runtime()
-    out = R.shadow_call(E, case, R.shadow_arrays(case, d))
     base = dict(case, threads=1, order=None)
     base.pop("chunks", None)
-    ref = R.shadow_call(E, base, R.shadow_arrays(base, d))
+    try:
+        out = R.shadow_call(E, case, R.shadow_arrays(case, d))
+        ref = R.shadow_call(E, base, R.shadow_arrays(base, d))
+    except (Unsupported, OutsideModel):
+        raise
+    except Exception as e:      # noqa: BLE001 - the strategy raised on valid input
+        from ..harness import solve_exists
+        res_, m = solve_exists(inp.pre, True)
+        Schedule.order = None
+        return {"verdict": "sat", "solver_s": 0.0, "symex_s": time.time() - t0, "n_queries": 1, "obligations": 0, "failed_obligations": [],
+                "witnesses": {}, "encoded": sorted(E.encoded),
+                "candidates": [{"signature": f"{PROP}:raises:{type(e).__name__}:strategy:{R.ENTRY[case['func']]}", "case": case,
+                                "inputs": jsonable(inp.eval(m)) if m is not None else {}, "kind": "raises", "labels": [f"{type(e).__name__}: {str(e)[:160]}"]}]}
     Schedule.order = None
     bads = [(f"{case['func']}[g={g}] differs from the single-thread contiguous run", b_not(same(out.cells[g], ref.cells[g]))) for g in range(case["G"])]
     wit = R.witnesses(case, d) if case.get("witness") else []
